@@ -59,6 +59,26 @@ def generate():
     out.append("Definition undef_reduces_to_global : bool := %s.%s" % (
         astlib.coq_bool(bool(flag)), "" if why is None else "  (* shape not recognised: %s *)" % why))
 
+    def single_write():
+        m = astlib.module("klongpy/sys_fn_ipc.py")
+        fn = astlib.find_func(m, "stream_send_msg")
+        body = astlib.body_no_doc(fn)
+        writes = astlib.calls_in(fn, "write")
+        if len(writes) != 1:
+            return False
+        w = writes[0]
+        if not (len(w.args) == 1 and isinstance(w.args[0], ast.Call) and isinstance(w.args[0].func, ast.Name)
+                and w.args[0].func.id == "encode_message"):
+            return False
+        # the write is the first statement: no suspension point (await) before or inside it
+        first = body[0]
+        if not (isinstance(first, ast.Expr) and first.value is w):
+            return False
+        return not any(isinstance(n, (ast.Await, ast.Yield, ast.YieldFrom)) for n in ast.walk(first))
+    sw, why_sw = astlib.try_flag(single_write)
+    out.append("Definition send_is_single_write : bool := %s.%s" % (
+        astlib.coq_bool(bool(sw)), "" if why_sw is None else "  (* shape not recognised: %s *)" % why_sw))
+
     def framing():
         m = astlib.module("klongpy/sys_fn_ipc.py")
         enc = astlib.find_func(m, "encode_message")
@@ -266,6 +286,59 @@ def check_framing(chk, rng):
     return bad_prop, (bad_corr or enc_bad)
 
 
+# ---------------------------------------------------------------- implementation side: concurrent senders
+def impl_concurrent_send(frames, yields):
+    """k coroutines call the real stream_send_msg on one writer whose drain() yields `yields[i]` times;
+    returns the sequence of write() payloads as the transport saw them"""
+    from klongpy.sys_fn_ipc import stream_send_msg
+
+    class W:
+        def __init__(self):
+            self.writes = []
+            self.n = 0
+        def write(self, data):
+            self.writes.append(bytes(data))
+        async def drain(self):
+            self.n += 1
+            for _ in range(yields[self.n % len(yields)]):
+                await asyncio.sleep(0)
+
+    async def run():
+        w = W()
+        await asyncio.gather(*[stream_send_msg(w, i, o) for i, o in frames])
+        return w.writes
+    return asyncio.run(run())
+
+
+def check_senders(chk, rng):
+    from klongpy.sys_fn_ipc import encode_message
+    bad_prop = bad_corr = None
+    objs = [1, "ab", [], [1, 2, 3], "x" * 300, {"k": [1, 2]}, 2.5]
+    n = 40 if chk.tier == "quick" else 400
+    reqs, wants = [], []
+    for j in range(n):
+        k = rng.randint(1, 4)
+        frames = [(uuid.UUID(int=rng.getrandbits(128)), rng.choice(objs)) for _ in range(k)]
+        yields = [rng.randint(0, 3) for _ in range(5)]
+        writes = impl_concurrent_send(frames, yields)
+        chk.count("evaluations"); chk.count("senders"); chk.count("distinct_nontrivial")
+        # property oracle: reading the transport's bytes back delivers every message intact, once
+        delivered, st, _ = impl_feed(writes)
+        sent = sorted((i.bytes, repr(o)) for i, o in frames)
+        got = sorted((i, repr(o)) for i, o in delivered)
+        if sent != got and bad_prop is None:
+            bad_prop = {"kind": "concurrent-senders", "frames": [[i.hex, repr(o)[:60]] for i, o in frames], "yields": yields,
+                        "write_lengths": [len(w) for w in writes], "delivered": len(delivered), "sent": len(frames)}
+        # model: the writes of ONE sender are exactly send_writes
+        i, o = frames[0]
+        reqs.append(sx(["sendwrites", list(i.bytes), list(pickle.dumps(o))]))
+        wants.append(impl_concurrent_send([frames[0]], [0]))
+    for r, w in zip(chk.run_model(reqs), wants):
+        if [bytes(x) for x in r] != w and bad_corr is None:
+            bad_corr = {"kind": "send-writes-correspondence", "model_write_lengths": [len(x) for x in r], "impl_write_lengths": [len(x) for x in w]}
+    return bad_prop, bad_corr
+
+
 # ---------------------------------------------------------------- implementation side: live server vs twin
 LIVE_SCRIPT = r'''
 import sys, os, json, random, threading, time, asyncio
@@ -445,11 +518,12 @@ def run(tier, replay=None):
         proof["broken"] = hits[0]
     bad_prop_f, bad_corr_f = check_framing(chk, rng)
     bad_prop_l, bad_corr_l = check_live(chk, rng)
-    for bp in (bad_prop_f, bad_prop_l):
+    bad_prop_s, bad_corr_s = check_senders(chk, rng)
+    for bp in (bad_prop_f, bad_prop_l, bad_prop_s):
         if bp is not None:
             chk.violation("remote/framing behaviour differs from the property's oracle on the implementation: %s" % bp["kind"], bp)
     if not chk.violations:
-        for bc in (bad_corr_f, bad_corr_l):
+        for bc in (bad_corr_f, bad_corr_l, bad_corr_s):
             if bc is not None:
                 chk.violation("correspondence between klongpy and the Coq model broke (%s); no failing input of the property found in %d cases"
                               % (bc["kind"], chk.counters.get("evaluations", 0)), {"broken": "correspondence C13/Model.v", "detail": bc}, no_input=True)
